@@ -573,3 +573,27 @@ func LS(k int64) Stmt { return ExprStmt{L(k)} }
 
 // CallN calls a named function.
 func CallN(fn string, args ...Expr) Expr { return Call{Fn: Name{fn}, Args: args} }
+
+// Multiline puts one statement per line (statement separators "; " become
+// newlines, except inside three-clause for headers) so that reported error
+// positions distinguish source lines.
+func Multiline(src string) string {
+	var sb strings.Builder
+	inFor := false
+	for i := 0; i < len(src); i++ {
+		if strings.HasPrefix(src[i:], "for ") && (i == 0 || src[i-1] == ' ' || src[i-1] == '\n') {
+			inFor = true
+		}
+		if src[i] == '{' {
+			inFor = false
+		}
+		if !inFor && src[i] == ';' && i+1 < len(src) && src[i+1] == ' ' {
+			sb.WriteByte('\n')
+			i++
+			continue
+		}
+		sb.WriteByte(src[i])
+	}
+	return sb.String()
+}
+
